@@ -1037,6 +1037,13 @@ def _module_constants(tree):
             e = e.value
         return isinstance(e, ast.Name) and e.id in imported
     for st in tree.body:
+        if isinstance(st, ast.Assign) and len(st.targets) == 1 and isinstance(st.targets[0], ast.Name) and isinstance(st.value, ast.UnaryOp) and isinstance(st.value.op, (ast.USub, ast.UAdd)) \
+                and isinstance(st.value.operand, ast.Constant) and isinstance(st.value.operand.value, (int, float)) and not isinstance(st.value.operand.value, bool):
+            # a signed literal (-1): the same constant
+            v_ = st.value.operand.value
+            cand[st.targets[0].id] = ast.copy_location(ast.Constant(value=-v_ if isinstance(st.value.op, ast.USub) else v_), st.value)
+        elif isinstance(st, ast.AnnAssign) and isinstance(st.target, ast.Name) and isinstance(st.value, ast.Constant) and isinstance(st.value.value, (int, float, str, bytes)) and not isinstance(st.value.value, bool):
+            cand[st.target.id] = st.value
         if isinstance(st, ast.Assign) and len(st.targets) == 1 and isinstance(st.targets[0], ast.Name) and isinstance(st.value, ast.Constant) \
                 and isinstance(st.value.value, (int, float, str, bytes)) and not isinstance(st.value.value, bool):
             cand[st.targets[0].id] = st.value
@@ -1111,6 +1118,99 @@ def desugar_suppress(tree, notes, mname):
     return changed
 
 
+def desugar_walrus(tree, notes, mname):
+    """`if (m := f(x)) is None: ...`  is  `m = f(x)` followed by `if m is None: ...` - and likewise for a walrus in the value of a
+    return / assignment / expression statement - whenever the assignment expression is evaluated unconditionally and before
+    anything else of the statement that could have an effect (it sits on the left spine: test, left operand, first operand, callee
+    argument after simple names and constants only).  Written as the plain assignment, so that every analysis sees a binding.
+    A walrus in a `while` test, in a later operand of and / or, in a conditional expression's arms, in a comprehension or a lambda
+    stays as it is (the interpreter evaluates it; the form rules leave it undecided)"""
+    changed = False
+
+    def simple(e):
+        return isinstance(e, (ast.Name, ast.Constant)) or (isinstance(e, ast.Attribute) and simple(e.value))
+
+    def find(e):
+        """the assignment expression that is evaluated first in ``e``, with a setter that replaces it; None when there is none there"""
+        if isinstance(e, ast.NamedExpr):
+            if isinstance(e.target, ast.Name) and find(e.value) is None and not any(isinstance(x, ast.NamedExpr) for x in ast.walk(e.value)):
+                return e
+            return None
+        if isinstance(e, ast.Compare):
+            kids = [e.left] + list(e.comparators)
+        elif isinstance(e, ast.UnaryOp):
+            kids = [e.operand]
+        elif isinstance(e, ast.BinOp):
+            kids = [e.left, e.right]
+        elif isinstance(e, ast.BoolOp):
+            kids = [e.values[0]]
+        elif isinstance(e, ast.IfExp):
+            kids = [e.test]
+        elif isinstance(e, ast.Attribute):
+            kids = [e.value]
+        elif isinstance(e, ast.Subscript):
+            kids = [e.value, e.slice]
+        elif isinstance(e, ast.Call):
+            kids = [e.func] + list(e.args) + [k.value for k in e.keywords]
+        elif isinstance(e, (ast.Tuple, ast.List)):
+            kids = list(e.elts)
+        else:
+            return None
+        for k in kids:
+            got = find(k)
+            if got is not None:
+                return got
+            if any(isinstance(x, ast.NamedExpr) for x in ast.walk(k)):
+                return None  # a walrus further inside something that is evaluated conditionally
+            if not simple(k):
+                return None  # something with a possible effect is evaluated before the walrus
+        return None
+
+    class Replace(ast.NodeTransformer):
+        def __init__(self, target):
+            self.target = target
+
+        def visit_NamedExpr(self, node):
+            if node is self.target:
+                return ast.copy_location(ast.Name(id=node.target.id, ctx=ast.Load()), node)
+            return self.generic_visit(node)
+
+        def visit_Lambda(self, node):
+            return node
+
+    def rewrite(stmts):
+        nonlocal changed
+        out = []
+        for st in stmts:
+            for field in ("body", "orelse", "finalbody"):
+                sub = getattr(st, field, None)
+                if isinstance(sub, list) and sub and isinstance(sub[0], ast.stmt):
+                    setattr(st, field, rewrite(sub))
+            for h in getattr(st, "handlers", []) or []:
+                h.body = rewrite(h.body)
+            for c in getattr(st, "cases", []) or []:
+                c.body = rewrite(c.body)
+            while True:
+                holder = "test" if isinstance(st, ast.If) else "value" if isinstance(st, (ast.Return, ast.Assign, ast.Expr, ast.AnnAssign, ast.AugAssign)) else None
+                expr = getattr(st, holder, None) if holder else None
+                got = find(expr) if expr is not None else None
+                if got is None:
+                    break
+                assign = ast.copy_location(ast.Assign(targets=[ast.Name(id=got.target.id, ctx=ast.Store())], value=got.value, lineno=st.lineno), st)
+                ast.fix_missing_locations(assign)
+                out.append(assign)
+                setattr(st, holder, Replace(got).visit(expr))
+                ast.fix_missing_locations(st)
+                changed = True
+                notes.append(f"{mname}: line {st.lineno}: `{got.target.id} := ...` written as an assignment before the statement")
+            out.append(st)
+        return out
+    for node in ast.walk(tree):
+        if isinstance(node, (ast.FunctionDef, ast.AsyncFunctionDef)):
+            node.body = rewrite(node.body)
+    return changed
+
+
 def desugar_match(tree, notes, mname):
     """`match x: case C(): A / case D() | E(): B / case _: Z`  is  `if isinstance(x, C): A / elif isinstance(x, (D, E)): B / else: Z`
     when the subject is a name and every pattern is a class pattern without sub-patterns (or an alternative of such, a constant,
@@ -1181,6 +1281,8 @@ def prenormalise(trees):
         if desugar_suppress(tree, notes, mname):
             changed.add(mname)
         if desugar_match(tree, notes, mname):
+            changed.add(mname)
+        if desugar_walrus(tree, notes, mname):
             changed.add(mname)
     for mname, old, new in detect_renames(trees, ref):
         table = function_table(trees[mname])
